@@ -1,3 +1,4 @@
+import PikoModel.Generated.Facts
 /-!
 # Model of `pkg/backoff/backoff.go`, of `client/upstream.go` `Upstream.connect`, of the dial
 # classification of `pkg/websocket/conn.go` `Dial`, and of `server/gossip/gossip.go`
@@ -229,8 +230,14 @@ structure Conf where
   maxReconnectBackoff : Nat := 0
 deriving DecidableEq, Repr
 
-def defaultMinReconnectBackoff : Nat := 100000000
-def defaultMaxReconnectBackoff : Nat := 15000000000
+/-- the `i`-th number of a regenerated list of literals (`d` only when the extractor failed; the
+`C18_facts_backoff` obligation fails in that case) -/
+def factNat (l : Option (List Nat)) (i : Nat) (d : Nat) : Nat := (l.bind (·[i]?)).getD d
+
+/-- the defaults `Upstream.connect` assigns: **the literals of the current source**
+(`Facts.connectDefaultBackoffs`; 100 ms and 15 s on the pinned tree) -/
+def defaultMinReconnectBackoff : Nat := factNat Facts.connectDefaultBackoffs 0 100000000
+def defaultMaxReconnectBackoff : Nat := factNat Facts.connectDefaultBackoffs 1 15000000000
 
 def Conf.min (c : Conf) : Nat :=
   if c.minReconnectBackoff = 0 then defaultMinReconnectBackoff else c.minReconnectBackoff
@@ -254,9 +261,11 @@ for {
 ```
 Errors are numbered by the join attempt that produced them (0-based). -/
 
-def joinRetries : Nat := 5
-def joinMinBackoff : Nat := 1000000000
-def joinMaxBackoff : Nat := 60000000000
+/-- the arguments of `backoff.New` in `JoinOnStartup`: **the literals of the current source**
+(`Facts.joinBackoffArgs`; 5, 1 s, 60 s on the pinned tree) -/
+def joinRetries : Nat := factNat Facts.joinBackoffArgs 0 5
+def joinMinBackoff : Nat := factNat Facts.joinBackoffArgs 1 1000000000
+def joinMaxBackoff : Nat := factNat Facts.joinBackoffArgs 2 60000000000
 
 structure JoinAttempt where
   /-- `gossiper.Join` succeeded -/
